@@ -202,6 +202,18 @@ def random_rows(rng, n):
     return rows
 
 
+def aliased(rows):
+    """memory-buffer comparisons again with both values starting at the same address (one content is a prefix of the other, or they
+    are equal): equality is by length and content, an implementation must not short-cut on the address"""
+    out = []
+    for r in rows:
+        if r[0] == "eq" and r[1].startswith("M|") and r[2].startswith("M|"):
+            a, b = r[1][2:], r[2][2:]
+            if a.startswith(b) or b.startswith(a):
+                out.append([r[0], r[1], r[2], "alias"])
+    return out
+
+
 def run(ctx):
     exe = ctx.build_harness("mockvalue", "asan")
     tcfg = ctx.write_cfg("Trace_MockValue", TRACE)
@@ -233,6 +245,7 @@ def run(ctx):
         rows.append(["eq", enc(c["a"]), enc(c["b"])] if c["op"] == "eq" else ["get", enc(c["a"]), CODE[c["b"]["t"]]])
     if len(rows) < 10000:
         raise Infra("table generation produced only %d rows" % len(rows))
+    rows += aliased(rows)
     execs = group(rows)
     ctx.sample({"source": "TLC table (Gen_MockValue)", "rows": ["\t".join(x) for x in rows[:: max(1, len(rows) // 6)][:6]]})
     conform(ctx, "table", execs, harness, "Trace_MockValue", tcfg, pcfg, key_fn, max_report=8, meta={"leg": "table"})
@@ -245,6 +258,7 @@ def run(ctx):
     # ---- leg 3: seeded random operands from the whole 64-bit value space
     n = 6000 if ctx.quick else 150000
     rrows = random_rows(ctx.rng, n)
+    rrows += aliased(rrows)
     ctx.sample({"source": "seeded random operands", "rows": ["\t".join(x) for x in rrows[:6]]})
     conform(ctx, "random", group(rrows), harness, "Trace_MockValue", tcfg, pcfg, key_fn, max_report=8, tlc_timeout=1800, meta={"leg": "random"})
     ctx.evaluations += 2 * sum(1 for x in rrows if x[0] == "eq") + sum(1 for x in rrows if x[0] == "get")
